@@ -433,6 +433,17 @@ func (w *World) trSpecCall(e *SExpr, env *SpecEnv) *Val {
 			gt = types.NewPointer(gt)
 		}
 		return tv(w.typeTag(gt), nil)
+	case "as":
+		// as(x, *T): view an interface / pointer value as a pointer to the module type T (no check: guard with dyn(x) == typeid(*T))
+		a := w.trSpec(args[0], env)
+		tn := args[1].String()
+		ptr := strings.HasPrefix(tn, "*")
+		tn = strings.TrimPrefix(tn, "*")
+		_, gt := w.resolveSpecType(pkg, tn)
+		if ptr {
+			gt = types.NewPointer(gt)
+		}
+		return tv(a.T, gt)
 	case "boxRect":
 		a := w.trSpec(args[0], env)
 		s, gt := w.resolveSpecType("geometry", "Rect")
